@@ -99,7 +99,14 @@ func (c *AuthorizeExplicitGrantHandler) IssueAuthorizeCode(ctx context.Context, 
 
 func (c *AuthorizeExplicitGrantHandler) GetSanitationWhiteList(ctx context.Context) []string {
 	if allowedList := c.Config.GetSanitationWhiteList(ctx); len(allowedList) > 0 {
-		return allowedList
+		for _, name := range allowedList {
+			if name == "redirect_uri" {
+				return allowedList
+			}
+		}
+		// The token endpoint binds the code to the redirect_uri of the authorization request, which it finds in
+		// the stored form: that value is kept whatever else the configured list asks for.
+		return append(append(make([]string, 0, len(allowedList)+1), allowedList...), "redirect_uri")
 	}
 
 	return []string{"code", "redirect_uri"}
